@@ -31,6 +31,15 @@ def run(ctx):
     runs = hc.matrix(ctx.tier)
     st = hc.execute(ctx, runs, PREFIXES)
     ctx.cov.update({"driver": st})
+    # directed old-to-young programs of the generational family (mode gen, validated by
+    # Trace_GenRemset which EXTENDS HeapTrace): the graph guards apply to them as well
+    from props import c05
+    hc.HEAP_EVENTS |= c05.MY_EVENTS
+    gruns = [c05.gen_run(p, "gen", programs=3 if ctx.tier == "quick" else 10, ops=60, seed_off=7)
+             for p in c05.PLANS]
+    ctx.cov["driver_generational_directed"] = hc.execute(
+        ctx, gruns, PREFIXES, par_run=3, par_tlc=3,
+        spec=("Trace_GenRemset.tla", "Trace_GenRemset.cfg", c05.SD))
     ctx.cov["rule"] = ("one trace = one gcdrive process (plan x feature build x configuration) "
                        "running seeded random programs of allocate/write/load/root/GC operations; "
                        "non-trivial = collections in which objects survived; moved counts objects "
